@@ -215,6 +215,8 @@ class MemOrchestrator(BaseOrchestrator):
         """Registers new invocations and sets them to REGISTERED status."""
         status_record = InvocationStatusRecord(InvocationStatus.REGISTERED, runner_id)
         for invocation in invocations:
+            if invocation.invocation_id in self.invocation_status_record:
+                continue  # registered "if they don't exist yet": keep status, owner and retries
             self._interanl_atomic_status_transition(
                 invocation.invocation_id, None, status_record
             )
